@@ -71,13 +71,7 @@ async def run(
         processes.append(process)
 
     # Wait for all processes to be done
-    try:
-        await asyncio.gather(*processes)
-    finally:
-        # If one process failed, the others must not keep running
-        for process in processes:
-            process.cancel()
-        await asyncio.gather(*processes, return_exceptions=True)
+    await asyncio.gather(*processes)
 
 
 async def sim_process(
